@@ -1,7 +1,7 @@
 (* C15 - a cancelled operation never disturbs the connection or other callers.
    Known finding K2 (KNOWN_FINDINGS.txt): a QoS 2 publish() future dropped before its PUBREC - the
    PUBREL is sent by the future, so it is never sent and that publish's quota slot never returns. *)
-From Poster Require Import Model.Client Proofs.ClientP Proofs.RunP Proofs.QuotaP Proofs.HandshakeP.
+From Poster Require Import Model.Client Proofs.ClientP Proofs.RunP Proofs.QuotaP Proofs.HandshakeP Proofs.ResumeP Proofs.OwnP Proofs.DropP.
 
 (* the late acknowledgement of a dropped future is absorbed: completing a dropped operation changes
    nothing at all *)
@@ -33,3 +33,50 @@ Theorem C15_drop_local : forall (s : sys) (i : N),
   forall j, j <> i -> alookup j (ops (drop_op s i)) = alookup j (ops s).
 Proof. exact drop_op_local. Qed.
 Print Assumptions C15_drop_local.
+
+(* ---- over every history of Context steps --------------------------------------------------------------------------------
+   DropP.rm i s: the operation table without future i (what dropping a future does; C15_drop_is_rm). Removing the
+   future commutes with every step the Context ever takes afterwards: requests of other callers, inbound packets, the
+   late acknowledgements of the abandoned operation itself. Uniq (operation keys distinct) holds in every reachable
+   state (C14_ownership's invariant OI = Own /\ Uniq). *)
+Theorem C15_drop_commutes : forall (evs : list qev) (i : N) (s : sys), Uniq s ->
+  run_q (rm i s) evs = rm i (run_q s evs).
+Proof. exact drop_commutes. Qed.
+Print Assumptions C15_drop_commutes.
+
+(* so after any history the Context state (quota, awaiting acknowledgements, subscriptions, retransmit queue), the wire,
+   the transport, the queue, every stream and every other operation's channels are exactly what they would have been
+   had the future been kept *)
+Theorem C15_drop_invisible : forall (evs : list qev) (i : N) (s : sys), Uniq s ->
+  let a := run_q (rm i s) evs in let b := run_q s evs in
+  c a = c b /\ wire_ev a = wire_ev b /\ wbudget a = wbudget b /\ msgq a = msgq b /\ streams a = streams b /\
+  (forall j, j <> i -> alookup j (ops a) = alookup j (ops b)) /\ alookup i (ops a) = None.
+Proof. exact drop_invisible. Qed.
+Print Assumptions C15_drop_invisible.
+
+(* and at every step the Context decides the same (keep running / leave run() and with what) *)
+Theorem C15_same_decision : forall (i : N) (s : sys), Uniq s ->
+  (forall m, snd (handle_message (rm i s) m) = snd (handle_message s m)) /\
+  (forall p, snd (handle_packet (rm i s) p) = snd (handle_packet s p)).
+Proof. exact drop_same_decision. Qed.
+Print Assumptions C15_same_decision.
+
+Theorem C15_drop_is_rm : forall (s : sys) (i : N) (o : op), alookup i (ops s) = Some o ->
+  (forall so, o_kind o = OSub so -> match alookup i (streams s) with Some st => st_taken st = true | None => True end) ->
+  drop_op s i = rm i s.
+Proof. exact drop_op_rm. Qed.
+Print Assumptions C15_drop_is_rm.
+Check (eq_refl : rm = fun i s => set_ops s (aremove i (ops s))).
+
+(* a QoS 1 publish (op 0) and a ping (op 1) in flight; op 0 is dropped; its PUBACK still frees the slot, the ping completes *)
+Example C15_nonvacuous :
+  let o0 := mkop (OPub (Build_publish_opts 1 false (Some [116]) None None None None None None None [])) Wait1 CEmpty CEmpty 1 in
+  let o1 := mkop OPing Wait1 CEmpty CEmpty 0 in
+  let s := set_ops (set_c sys_init (mkctx [(aid 4 1, (0, 1)); (aid 13 0, (1, 1))] [] [] [] 0 1 None 0 None)) [(0, o0); (1, o1)] in
+  let evs := [QPkt (mkrx KPuback false false false 0 1 0 [] [] [] []); QPkt (mkrx KPingresp false false false 0 0 0 [] [] [] [])] in
+  Uniq s /\ drop_op s 0 = rm 0 s /\ quota (c (run_q (rm 0 s) evs)) = 1 /\
+  match alookup 1 (ops (run_q (rm 0 s) evs)) with Some o => o_ch1 o <> CEmpty | None => False end.
+Proof.
+  cbv zeta. split; [repeat constructor; cbn; intuition discriminate|]. split; [reflexivity|]. split; [vm_compute; reflexivity|].
+  vm_compute. discriminate.
+Qed.
